@@ -100,6 +100,9 @@ std::arch::global_asm!(
     "mov rax, rsp",
     "and rax, 15",
     "mov qword ptr [rip + {slot}], rax",
+    // a callee may leave anything in the caller-saved registers that carry no argument: make sure this one does
+    "movabs r10, 0x5a5a5a5a5a5a5a5a",
+    "mov r11, r10",
     "jmp {target}",
     slot = sym ALIGN_SLOT,
     target = sym h3,
@@ -660,6 +663,21 @@ pub fn gen_memprobe(w: &mut impl Write, thorough: bool, seed: u64) {
             }
         }
     }
+    // several registered ranges: an access must lie inside ONE of them — two ranges separated by a gap, adjacent ranges, nested
+    // ranges; accesses starting in one and ending in the other (over the gap), entirely inside either, and inside the gap
+    let extra = pattern(64, 19); let mem = pattern(8, 11);
+    for (ranges, name) in [("0:16:20,0:24:28", "gap4"), ("0:16:18,0:22:24", "gap4b"), ("0:16:20,0:21:32", "gap1"), ("0:16:24,0:24:32", "adjacent"), ("0:8:40,0:16:24", "nested"), ("0:16:24,0:40:48", "far")] {
+        let _ = name;
+        for &(ldx, st, stx, _labs, _lind, wd) in &widths { for start in 12i64..34 { for kind in 0..4 {
+            if kind == 3 && wd < 4 { continue; }
+            let mut p = vec![]; init_regs(&mut p);
+            p.extend(lddw(6, 0)); let patch = format!("{}:extra0:{}", p.len() / 8 - 2, start);
+            match kind { 0 => p.extend(ins(ldx, 2, 6, 0, 0)), 1 => p.extend(ins(st, 6, 0, 0, 0x5a5a5a5a)), 2 => p.extend(ins(stx, 6, 3, 0, 0)),
+                         _ => p.extend(ins(if wd == 4 { 0xc3 } else { 0xdb }, 6, 3, 0, 0)) }
+            p.extend(ins(0xb7, 6, 0, 0, 0)); fold_exit(&mut p);
+            writeln!(w, "exec tag=memprobe prog={} mem={} mbuff=- extra={} arange={} patch={} budget=300", hex(&p), hex(&mem), hex(&extra), ranges, patch).unwrap();
+        } } }
+    }
 }
 
 /// C05: whatever the real verifier accepts is executed — the verify suite's byte strings (every opcode/register byte in every
@@ -746,6 +764,18 @@ pub fn gen_engines(w: &mut impl Write, thorough: bool, seed: u64) {
             p.extend(ins(opc, 0, 3, 0, imm)); p.extend(EXIT);
             writeln!(w, "exec tag=context prog={} mem=- mbuff=- budget=300 engines=jit,clif kind={} fixoff=0:8", hex(&p), kind).unwrap();
         } } } }
+    // (3d) division and remainder at their special points, never subsampled: every boundary dividend x divisors {0, 1, MAX, 2^32 (low half
+    //      zero), 2^32-1, 2^63}, register and immediate forms, 32 and 64 bit, through register pairs that hit rax/rdx/other on x86
+    for &opc in &[0x3cu8, 0x3f, 0x9c, 0x9f, 0x34, 0x37, 0x94, 0x97] { for &a in V64 { for b in [0u64, 1, u64::MAX, 1 << 32, 0xffff_ffff, 1 << 63, 7] {
+        for (dst, src) in [(2u8, 3u8), (0, 3), (3, 0), (6, 7)] {
+            let is_reg = opc & 0x08 != 0;
+            if !is_reg && (dst, src) != (2, 3) && (dst, src) != (0, 3) { continue; }
+            let mut p = vec![]; p.extend(lddw(dst, a));
+            if is_reg { p.extend(lddw(src, b)); p.extend(ins(opc, dst, src, 0, 0)); } else { p.extend(ins(opc, dst, 0, 0, b as u32 as i32)); }
+            p.extend(ins(0xbf, 0, dst, 0, 0)); p.extend(EXIT);
+            writeln!(w, "exec tag=divzero prog={} budget=100 engines=jit,clif kind=nodata", hex(&p)).unwrap();
+        }
+    } } }
     // (3c) memory coherence: load - store to the same bytes - load again, for every pairing of the three ways to read packet
     //      bytes (ldabs, ldind, ldx through a pointer) with the three ways to write them (st, stx, xadd); same on the stack.
     //      A compiler that forwards the first load's value to the second one (alias analysis) returns stale data.
@@ -797,7 +827,9 @@ pub fn gen_engines(w: &mut impl Write, thorough: bool, seed: u64) {
         // straight-line: we instead build nested functions: level k function = [call level k+1] ; exit, the innermost does the helper call
         s.clear();
         for q in 6..10u8 { s.push(ins(0xb7, q, 0, 0, 0x600 + q as i32)); }
-        for a in 1..6u8 { s.push(ins(0xb7, a, 0, 0, 0x10 * a as i32 + depth as i32)); }
+        // 64-bit arguments (upper halves set): a marshalling step of the wrong width must show
+        for a in 1..6u8 { let v: u64 = ((0x1111_1111u64 * a as u64 + 0x8000_0000) << 32) | (0x10 * a as u64 + depth as u64);
+            let w2 = lddw(a, v); let mut h0 = [0u8; 8]; h0.copy_from_slice(&w2[0..8]); let mut h1 = [0u8; 8]; h1.copy_from_slice(&w2[8..16]); s.push(h0); s.push(h1); }
         if depth == 0 { s.push(ins(0x85, 0, 0, 0, id as i32)); } else { s.push(ins(0x85, 0, 1, 0, 0)); }
         let main_call = s.len() - 1;
         for q in 6..10u8 { s.push(ins(0x27, 0, 0, 0, 3)); s.push(ins(0x0f, 0, q, 0, 0)); }
